@@ -388,6 +388,41 @@ pub fn run(tier: Tier) -> i32 {
             check(Seg::E, vec![l.clone()], emit(*d, &ops, false), format!("seg=eseg/{}", hint), 0);
         });
     }
+    // 3c. values just inside and just outside each width, written as expressions of every shape:
+    //     the check is on the value, not on how it is written
+    let n_exprs = AtomicU64::new(0);
+    {
+        let mut ew: Vec<(Dir, i128, usize)> = vec![];
+        for d in [Dir::Db, Dir::Dw, Dir::Dd] {
+            let (lo, hi) = d.range();
+            for v in [lo - 1, lo, hi, hi + 1, lo - 128, hi + 256] {
+                for shape in 0..8usize {
+                    ew.push((d, v, shape));
+                }
+            }
+        }
+        ew.par_iter().for_each(|(d, v, shape)| {
+            let v = *v;
+            let abs = |x: i128| if x < 0 { format!("(0-{})", -x) } else { format!("{}", x) };
+            let text = match shape {
+                0 => format!("~{}", abs(-v - 1)),
+                1 => format!("~0x{:X}", if -v - 1 >= 0 { -v - 1 } else { return }),
+                2 => format!("-{}", abs(-v)),
+                3 => format!("({})", abs(v)),
+                4 => format!("{} + 1", abs(v - 1)),
+                5 => format!("{} - 1", abs(v + 1)),
+                6 => format!("~(~{})", abs(v)),
+                _ => format!("{} * 1", abs(v)),
+            };
+            let (lo, hi) = d.range();
+            let ops = vec![Op::Val(text.clone(), Some(v))];
+            let l = line(*d, &ops);
+            n_exprs.fetch_add(2, Ordering::Relaxed);
+            let hint = format!("dir={}/expression-shape={}/value={}", d.name(), shape, if v < lo { "below" } else if v > hi { "above" } else { "inside" });
+            check(Seg::C, vec![l.clone()], emit(*d, &ops, true), format!("seg=cseg/{}", hint), 0);
+            check(Seg::E, vec![l.clone()], emit(*d, &ops, false), format!("seg=eseg/{}", hint), 0);
+        });
+    }
     // 4. symbols whose values do not fit the narrower widths: a label beyond 64 K words, large and
     //    negative constants, a .set variable - bare and inside expressions
     let n_bigsym = AtomicU64::new(0);
@@ -451,6 +486,7 @@ pub fn run(tier: Tier) -> i32 {
         "operand_lists": n_lists,
         "line_sequences": n_seqs,
         "string_content_programs": n_strings.load(Ordering::Relaxed),
+        "boundary_values_as_expressions_programs": n_exprs.load(Ordering::Relaxed),
         "literals_at_and_beyond_64_bits_programs": n_biglit.load(Ordering::Relaxed),
         "large_symbol_value_programs": n_bigsym.load(Ordering::Relaxed),
         "outcomes": {"ok": n_ok.load(Ordering::Relaxed), "err": n_err.load(Ordering::Relaxed)},
